@@ -599,7 +599,7 @@ def r3_8(ctx, R):
             if not (smf and wlf):
                 continue
             n += 1
-            ops = dict(zip(e[3], e[2]))
+            ops = __import__('lib_inter').flat_ops(ctx, e)
             t, w = ops[smf[0]], ops[wlf[0]]
             ok = False
             det = "%s / %s" % (expr_str(t), expr_str(w))
@@ -742,6 +742,33 @@ RE_WRITE_PRIM = (r"^core::ptr::(write|write_volatile|write_unaligned|replace|swa
 RE_COPY_PRIM = r"^core::(ptr|intrinsics)::(copy|copy_nonoverlapping)$|^core::ptr::mut_ptr::<impl \*mut T>::copy_from(_nonoverlapping)?$"
 
 
+def _holds_lock_guard(ctx, ty, _seen=None):
+    """The type is, or (through fields of crate structs / enums, tuples, Option ...) contains, a mutex guard."""
+    _seen = _seen or set()
+    if ty in _seen:
+        return False
+    _seen.add(ty)
+    t = ctx.facts.types.get(ty)
+    if t is None:
+        return "MutexGuard" in ty
+    k = t["k"]
+    if k == "adt":
+        if "MutexGuard" in t["name"]:
+            return True
+        adt = ctx.facts.adts.get(t["name"])
+        if adt is not None:
+            for v in adt["variants"]:
+                for f in v["fields"]:
+                    if _holds_lock_guard(ctx, f["ty"], _seen):
+                        return True
+        return any(isinstance(a, str) and _holds_lock_guard(ctx, a, _seen) for a in t["args"])
+    if k == "tuple":
+        return any(_holds_lock_guard(ctx, a, _seen) for a in t["tys"])
+    if k in ("array", "slice"):
+        return _holds_lock_guard(ctx, t["ty"], _seen)
+    return False
+
+
 def r3_11(ctx, R, inc, dec, free_fn):
     ctx.rule("R3.11", "the decrement is this owner's LAST touch: in every function, after a call that gives up a reference (the "
                       "decrement itself, or a crate function that decrements on all its paths, e.g. the vtable drop) nothing "
@@ -786,6 +813,14 @@ def r3_11(ctx, R, inc, dec, free_fn):
                     cbx = callee_body(ctx.facts, fnx) if fnx else None
                     if cbx is not None or fnx is None:
                         bad.append("%s calls %s" % (b.loc(x), cbx.path.split("::")[-1] if cbx is not None else "<indirect>"))
+                if tx["k"] == "drop" and _holds_lock_guard(ctx, tx["place"]["ty"]):
+                    # releasing the slot's lock guard writes the lock word -- inside the shared block
+                    bad.append("%s drops a lock guard of the shared block (%s)" % (b.loc(x), tx["place"]["ty"]))
+                if tx["k"] == "call" and tx["func"]["k"] == "const" and "fn" in tx["func"] and re.search(r"core::mem::drop$", tx["func"]["fn"]["def"]) and tx["args"]:
+                    a_ = tx["args"][0]
+                    aty = a_["place"]["ty"] if a_["k"] in ("copy", "move") else a_.get("ty", "")
+                    if _holds_lock_guard(ctx, aty):
+                        bad.append("%s drops a lock guard of the shared block (%s)" % (b.loc(x), aty))
                 for s_ in b.stmts(x):
                     if s_["k"] != "assign":
                         continue
